@@ -310,6 +310,32 @@ func (s *Subscription) ReleaseRPCResources() {
 	s.unqueueEvents(queueReasonLoading)
 }
 
+// UnsendRPCResources reverts what GetRPCResources did, for resources sent in
+// a response from which the client retains nothing (a get request): the
+// subscriptions are not marked as sent, and their events stay queued.
+func (s *Subscription) UnsendRPCResources() {
+	s.unpopulateResources(false)
+}
+
+func (s *Subscription) unpopulateResources(indirect bool) {
+	if s.state == stateLoading {
+		return
+	}
+
+	if indirect {
+		s.indirectsent--
+	}
+
+	if s.state != stateToSend {
+		return
+	}
+
+	s.state = stateReady
+	for _, sc := range s.refs {
+		sc.sub.unpopulateResources(true)
+	}
+}
+
 func (s *Subscription) queueEvents(reason uint8) {
 	s.queueFlag |= reason
 }
